@@ -219,6 +219,22 @@ func (f *Findings) Known(property, key string) *Finding {
 	return nil
 }
 
+// PrintUnmet prints the KNOWN-FINDING line of every listed known finding of
+// the property that this run's sample did not happen to meet, so that the
+// output names every listed finding whatever was sampled.
+func (f *Findings) PrintUnmet(property string, seen []string) {
+	met := map[string]bool{}
+	for _, k := range seen {
+		met[k] = true
+	}
+	for i := range f.All {
+		e := &f.All[i]
+		if e.Status == "known" && e.Property == property && !met[e.Match] {
+			fmt.Printf("KNOWN-FINDING: property=%s %s [%s] (listed; not met by this run's sample)\n", property, e.What, e.Match)
+		}
+	}
+}
+
 // ---------------------------------------------------------------- violations
 
 // Violation is one oracle failure. Key is the finding identity (stable across
